@@ -113,6 +113,9 @@ def run_ob(args):
         if p['outcome'] == 'raised':
             unexpected.append((i, p['error']))
         for cname, stt, det in p['clauses']:
+            if stt == 'failed' and not p['witness'] and p['decls']:
+                stt = 'unknown'      # failing only on a path nobody could witness: possibly infeasible -> undecided
+                det = {'unwitnessed_path': p['cond'], 'detail': det}
             clause_stat.setdefault(cname, []).append((i, stt))
             if stt != 'proved': details.setdefault(cname, []).append((i, det))
         v = None
